@@ -46,3 +46,49 @@ m("c04-keep-direct-iteration", ["C04"], S, "        for idx in range(0, self.len
   "        for res in self.seq:\n            ans += ww[translate[res]] / self.len", kind="keep")
 m("c04-keep-dict-reorder", ["C04"], A, "    return {'C': 8.5,\n            'Y': 10.1,", "    return {'Y': 10.1,\n            'C': 8.5,", kind="keep")
 m("c04-keep-tuple-for-list", ["C04"], S, "D = ['T', 'A', 'G', 'R', 'D', 'H', 'Q', 'K', 'S', 'E', 'P']", "D = ('P', 'T', 'A', 'G', 'R', 'D', 'H', 'Q', 'K', 'S', 'E')", kind="keep")
+
+# ------------------------------------------------------------------ C02 (delta)
+m("c02-blob-5-7", ["C02"], S, "return (self.deltaForm(5) + self.deltaForm(6)) / 2", "return (self.deltaForm(5) + self.deltaForm(7)) / 2")
+m("c02-div-3", ["C02"], S, "return (self.deltaForm(5) + self.deltaForm(6)) / 2", "return (self.deltaForm(5) + self.deltaForm(6)) / 3")
+m("c02-last-blob-dropped", ["C02", "C05"], S, "        for i in range(0, nblobs):\n\n            # get the blob charge pattern list", "        for i in range(0, nblobs - 1):\n\n            # get the blob charge pattern list")
+m("c02-first-blob-dropped", ["C02", "C05"], S, "        for i in range(0, nblobs):\n\n            # get the blob charge pattern list", "        for i in range(1, nblobs):\n\n            # get the blob charge pattern list")
+m("c02-bneg-le", ["C02"], S, "            bneg = np.where(blob < 0)[0].size", "            bneg = np.where(blob <= 0)[0].size")
+m("c02-abs-not-square", ["C02", "C05"], S, "                bsig = bncpr**2 / bfcr\n\n            # calculate the square deviation", "                bsig = abs(bncpr) / bfcr\n\n            # calculate the square deviation")
+m("c02-uncharged-blob-1", ["C02"], S, "            if(bfcr == 0):\n                bsig = 0\n            else:\n                bsig = bncpr**2 / bfcr\n\n            # calculate the square", "            if(bfcr == 0):\n                bsig = 1\n            else:\n                bsig = bncpr**2 / bfcr\n\n            # calculate the square")
+m("c02-div-nblobs-minus-1", ["C02"], S, "ans += (sigma - bsig)**2 / nblobs", "ans += (sigma - bsig)**2 / (nblobs - 1)")
+m("c02-sigma-guard", ["C02"], S, "        if(self.countNeut() == self.len):\n            return 0", "        if(self.countNeut() == 0):\n            return 0")
+m("c02-window-short", ["C02", "C05"], S, "            blob = self.chargePattern[i:(i + bloblen)]\n\n            # calculate a bunch", "            blob = self.chargePattern[i:(i + bloblen - 1)]\n\n            # calculate a bunch")
+m("c02-reads-fcr-blob", ["C02"], S, "            bfcr = (bpos + bneg) / (bloblen + 0.0)\n\n            if(bfcr == 0):\n                bsig = 0\n            else:\n                bsig = bncpr**2 / bfcr\n\n            # calculate the square", "            bfcr = (bpos + bneg) / (bloblen + 1.0)\n\n            if(bfcr == 0):\n                bsig = 0\n            else:\n                bsig = bncpr**2 / bfcr\n\n            # calculate the square")
+m("c02-short-seq-special", ["C02"], S, "        sigma = self.sigma()\n        nblobs = self.len - bloblen + 1\n        ans = 0\n", "        sigma = self.sigma()\n        nblobs = self.len - bloblen + 1\n        ans = 0\n        if nblobs == 1:\n            return 0\n")
+m("c02-api-deltamax", ["C02"], P, "        return self.SeqObj.delta()", "        return self.SeqObj.deltaMax()")
+m("c02-keep-hoist", ["C02"], S, "            bncpr = (bpos - bneg) / (bloblen + 0.0)\n            bfcr = (bpos + bneg) / (bloblen + 0.0)\n\n            if(bfcr == 0):\n                bsig = 0\n            else:\n                bsig = bncpr**2 / bfcr\n\n            # calculate the square",
+  "            wl = float(bloblen)\n            bfcr = (bneg + bpos) / wl\n            bncpr = (bpos - bneg) / wl\n\n            if bpos + bneg == 0:\n                bsig = 0\n            else:\n                bsig = (bncpr * bncpr) / bfcr\n\n            # calculate the square", kind="keep")
+m("c02-keep-div-outside", ["C02"], S, "            ans += (sigma - bsig)**2 / nblobs\n\n        return ans", "            ans += (sigma - bsig)**2\n\n        return ans / nblobs if nblobs > 0 else ans", kind="keep", undecided_ok=True)
+m("c02-keep-half", ["C02"], S, "return (self.deltaForm(5) + self.deltaForm(6)) / 2", "return 0.5 * (self.deltaForm(6) + self.deltaForm(5))", kind="keep")
+
+# ------------------------------------------------------------------ C08 (phase region)
+m("c08-lt-to-le-025", ["C08"], S, "        if(fcr < .25):", "        if(fcr <= .25):")
+m("c08-le-to-lt-035", ["C08"], S, "elif(fcr >= .25 and fcr <= .35):", "elif(fcr >= .25 and fcr < .35):")
+m("c08-abs-dropped", ["C08"], S, "elif(fcr > .35 and abs(ncpr) < 0.35):", "elif(fcr > .35 and ncpr < 0.35):")
+m("c08-ncpr-le", ["C08"], S, "elif(fcr > .35 and abs(ncpr) < 0.35):", "elif(fcr > .35 and abs(ncpr) <= 0.35):")
+m("c08-4-5-exchanged", ["C08"], S, "                    \"Algorithm bug when coping with phase plot regions\")\n            return 5", "                    \"Algorithm bug when coping with phase plot regions\")\n            return 4")
+m("c08-fplus-ge", ["C08"], S, "        elif(self.Fplus() > 0.35):", "        elif(self.Fplus() > 0.36):")
+m("c08-two-roundings", ["C08"], S, "            return (self.countPos() + self.countNeg()) / (self.len + 0.0)\n        \n    #", "            return self.Fplus() + self.Fminus()\n        \n    #")
+m("c08-threshold-03", ["C08"], S, "elif(fcr >= .25 and fcr <= .35):", "elif(fcr >= .25 and fcr <= .3):")
+m("c08-annotation-swapped", ["C08"], S, "            return 'Negatively Charged Swollen Coils'\n        elif(region == 5):\n            return 'Positively Charged Swollen Coils'", "            return 'Positively Charged Swollen Coils'\n        elif(region == 5):\n            return 'Negatively Charged Swollen Coils'")
+m("c08-len-special", ["C08"], S, "        fcr = self.FCR()\n        ncpr = self.NCPR()\n", "        fcr = self.FCR()\n        ncpr = self.NCPR()\n        if self.len > 1000:\n            return 3\n")
+m("c08-keep-nested", ["C08"], S, "        elif(fcr >= .25 and fcr <= .35):\n            return 2", "        elif(fcr <= .35):\n            return 2", kind="keep")
+m("c08-keep-float-cast", ["C08"], S, "        return self.countPos() / (self.len + 0.0)", "        return self.countPos() / float(self.len)", kind="keep")
+
+# ------------------------------------------------------------------ C01 (kappa)
+m("c01-sentinel-0", ["C01"], S, "kappa is not a valid/relevant parameter\")\n            return -1", "kappa is not a valid/relevant parameter\")\n            return 0")
+m("c01-cond-on-delta", ["C01"], S, "        if self.deltaMax() == 0:\n            warning_message(", "        if self.delta() == 0:\n            warning_message(")
+m("c01-ratio-inverted", ["C01"], S, "kappaVal = self.delta() / self.deltaMax()", "kappaVal = self.deltaMax() / self.delta()")
+m("c01-clamp-1.5", ["C01"], S, "if kappaVal > 1.0 and kappaVal < 1.1:", "if kappaVal > 1.0 and kappaVal < 1.5:")
+m("c01-clamp-removed", ["C01"], S, "if kappaVal > 1.0 and kappaVal < 1.1:\n                return 1.0", "if kappaVal > 1.0 and kappaVal < 1.1:\n                return kappaVal")
+m("c01-silent-clip", ["C01"], S, "            if kappaVal > 1.0 and kappaVal < 1.1:\n                return 1.0\n            else:\n                return kappaVal", "            if kappaVal > 1.0:\n                return 1.0\n            else:\n                return kappaVal")
+m("c01-getdelta-misroute", ["C01", "C02"], P, "        return self.SeqObj.delta()", "        return self.SeqObj.deltaMax()")
+m("c01-minus-one-on-small", ["C01"], S, "            kappaVal = self.delta() / self.deltaMax()\n", "            kappaVal = self.delta() / self.deltaMax()\n            if kappaVal < 0.001:\n                return -1\n")
+m("c01-delta-signed", ["C01"], S, "ans += (sigma - bsig)**2 / nblobs", "ans += (sigma - bsig)**3 / nblobs")
+m("c01-keep-le-zero", ["C01"], S, "        if self.deltaMax() == 0:\n            warning_message(", "        if self.deltaMax() <= 0:\n            warning_message(", kind="keep")
+m("c01-keep-restructure", ["C01"], S, "            if kappaVal > 1.0 and kappaVal < 1.1:\n                return 1.0\n            else:\n                return kappaVal", "            if 1.0 < kappaVal < 1.1:\n                kappaVal = 1.0\n            return kappaVal", kind="keep")
